@@ -6,6 +6,7 @@ import (
 	"io"
 	"sync"
 
+	"github.com/oasisprotocol/oasis-core/go/common/verifhook"
 	db "github.com/oasisprotocol/oasis-core/go/storage/mkvs/db/api"
 )
 
@@ -83,6 +84,7 @@ func (rs *restorer) RestoreChunk(ctx context.Context, idx uint64, r io.Reader) (
 		return false, err
 	}
 
+	verifhook.At("checkpoint.RestoreChunk.beforeImport")
 	err = restoreChunk(ctx, rs.ndb, chunk, r)
 	switch {
 	case err == nil:
@@ -95,6 +97,7 @@ func (rs *restorer) RestoreChunk(ctx context.Context, idx uint64, r io.Reader) (
 		return false, err
 	}
 
+	verifhook.At("checkpoint.RestoreChunk.afterImport")
 	rs.Lock()
 	defer rs.Unlock()
 
